@@ -61,6 +61,14 @@ Theorem C18_time_axis_ep_argument : forall ts col ep kern m, sortedZ ts -> canon
 Proof. exact convolve_arg_time_axis. Qed.
 Print Assumptions C18_time_axis_ep_argument.
 
+(* ... and through the time support (which holds every sample): EXACTLY the input's timestamps, one output row each *)
+Theorem C18_time_axis_support_route : forall ts col ep kern m, sortedZ ts -> canonical ep -> kern <> [] ->
+  length col = length ts -> Forall (fun t => mem t ep = true) ts ->
+  fst (convolve_arg ts col ep kern m) = ts
+  /\ length (snd (convolve_arg ts col ep kern m)) = length ts.
+Proof. exact convolve_support_route_time_axis. Qed.
+Print Assumptions C18_time_axis_support_route.
+
 (* 6. per epoch: the rows of interval (s,e) are the trimmed full convolution of that interval's rows *)
 Theorem C18_epoch_window : forall ts col pre s e post kern m, kern <> [] -> length col = length ts ->
   canonical (pre ++ (s, e) :: post) ->
@@ -85,6 +93,14 @@ Theorem C18_epoch_independent : forall ts col col' pre s e post kern m, kern <> 
   = slice (ss_left s ts) (ss_right e ts) (convolve_epochs ts col' (pre ++ (s, e) :: post) kern m).
 Proof. exact convolve_epochs_independent. Qed.
 Print Assumptions C18_epoch_independent.
+
+(* an interval of the support holding no sample is left alone: the result is what it is without that interval
+   (the code: `if t == 0: continue`, cf7fba4) *)
+Theorem C18_empty_epoch_left_alone : forall ts col pre s e post kern m, kern <> [] ->
+  ss_left s ts = ss_right e ts ->
+  convolve_epochs ts col (pre ++ (s, e) :: post) kern m = convolve_epochs ts col (pre ++ post) kern m.
+Proof. exact convolve_epochs_empty_epoch. Qed.
+Print Assumptions C18_empty_epoch_left_alone.
 
 (* 8. linear in the signal (and in the kernel) over any set of epochs *)
 Theorem C18_linear_in_signal : forall ts a b x y ep kern m, kern <> [] -> length x = length y ->
@@ -195,6 +211,16 @@ Theorem C18_butter_independent_partial : forall F, len_pres F -> forall ts col c
   = slice (ss_left s ts) (ss_right e ts) (butter_epochs F ts col' (pre ++ (s, e) :: post)).
 Proof. exact butter_independent. Qed.
 Print Assumptions C18_butter_independent_partial.
+
+(* an interval holding no sample contributes nothing - for a TOTAL length-preserving F.  scipy's sosfiltfilt is not
+   total: it raises on a slice of at most padlen samples (the empty slice included), and the code calls it on every
+   interval, so ONE empty or short interval makes the whole call raise; the harness reports that
+   (keys empty_epoch=True / short_epoch=True) - the premise [len_pres F] is where the model idealises *)
+Theorem C18_butter_empty_epoch_partial : forall F, len_pres F -> forall ts col pre s e post,
+  ss_left s ts = ss_right e ts ->
+  butter_epochs F ts col (pre ++ (s, e) :: post) = butter_epochs F ts col (pre ++ post).
+Proof. exact butter_empty_epoch. Qed.
+Print Assumptions C18_butter_empty_epoch_partial.
 
 Theorem C18_butter_linear_partial : forall F, len_pres F -> lin_op F -> forall ts a b x y ep,
   length x = length y ->
